@@ -1,11 +1,14 @@
 #!/bin/bash
-# usage: mutant.sh <mutant.py|patch.diff> <command...>   applies the change to /repo, runs the command, restores /repo
-M=$1; shift
+# usage: mutant.sh <mutant.py|patch.diff|x.rdiff> <command...>   applies the change to /repo (.rdiff: reverse-applies a commit),
+# runs the command, restores /repo
+M=$(realpath "$1"); shift
 git -C /repo diff --quiet || { echo "repo dirty"; exit 3; }
 case "$M" in
   *.py) python3 "$M" /repo || { git -C /repo checkout -- .; exit 3; } ;;
+  *.rdiff) git -C /repo apply -R "$M" || exit 3 ;;
   *) git -C /repo apply "$M" || exit 3 ;;
 esac
+( cd /repo && env -u GOTOOLCHAIN -u GOFLAGS -u GOPROXY go build ./... ) || { echo "MUTANT DOES NOT COMPILE"; git -C /repo checkout -- .; exit 3; }
 "$@"; rc=$?
 git -C /repo checkout -- . ; git -C /repo clean -fdq
 exit $rc
